@@ -12,7 +12,7 @@ driver = "drv_convert"
 cxx = False
 fixed_lines = 0
 lean_modules = ["Driver.Convert"]
-rule = ("ops: 'c val|vval src tgt value' = one conversion through mpt_data_converter(src) / mpt_value_convert, performed with "
+rule = ("ops: 'c val|vval|consume src tgt value' = one conversion through mpt_data_converter(src) / mpt_value_convert / mpt_iterator_consume, performed with "
         "and without destination; 'c sweep src tgt lo hi' = the same for every integer of the range, summarised (verdict "
         "runs, inexact results, query-mode differences); 'c text fn tgt hex' = numeral text through mpt_convert_number / "
         "mpt_convert_string / mpt_c[u]intN; 'c ftext' = the same for f/d/e targets. Stream 1 (exhaustive): every value of every "
@@ -250,21 +250,25 @@ def scripts(tier, seed, scale=1):
         pts = _int_boundary(s)
         for t in ALL:
             lo, hi = INTS.get(t, (None, None))
-            for op in ("val", "vval"):
+            for op in ("val", "vval", "consume"):
                 if s in SMALL and op == "val":
                     continue        # covered by the sweep
+                if op == "consume" and s in SMALL and not thorough:
+                    continue
                 sel = pts
                 if not thorough and t in INTS:
                     # quick: the neighbourhoods of this target's limits and of the source's limits, plus every 4th point
                     keep = set(_near([lo, hi, 0, 33, 126, INTS[s][0], INTS[s][1]], INTS[s][0], INTS[s][1], 2))
                     sel = [v for k, v in enumerate(pts) if v in keep or k % 4 == 0]
+                if op == "consume" and not thorough:
+                    sel = sel[::3]
                 out += _chunks("bnd:%s:%s>%s" % (op, s, t), ["c %s %s %s %d" % (op, s, t, v) for v in sel], 12)
     for s in FLTS:
         pts = _float_points(s)
         for t in ALL:
-            for op in ("val", "vval"):
+            for op in ("val", "vval", "consume"):
                 sel = pts if (thorough or t in FLTS) else pts[::5]
-                if op == "vval" and not thorough:
+                if op != "val" and not thorough:
                     sel = sel[::3]
                 ops = ["c %s %s %s %s" % (op, s, t, fhex(s, x)) for x in sel]
                 ops += ["c %s %s %s %s" % (op, s, t, v) for v in (encode(s, "inf"), encode(s, "-inf"), "nan", encode(s, Fraction(0), negzero=True))]
@@ -278,12 +282,12 @@ def scripts(tier, seed, scale=1):
         out += _ftext_scripts(t, thorough)
     # ---- stream 3: random
     r = gen.rng(id, tier, seed, "random")
-    nrand = (2000 if not thorough else 20000) * scale
+    nrand = (2000 if not thorough else 60000) * scale
     ops = []
     for _ in range(nrand):
         s = r.choice(WIDE + WIDE + list(FLTS))
         t = r.choice(ALL)
-        op = r.choice(["val", "val", "vval"])
+        op = r.choice(["val", "val", "vval", "consume"])
         if s in INTS:
             lo, hi = INTS[s]
             k = r.choice([8, 16, 24, 32, 53, 64])
@@ -503,8 +507,45 @@ def nontrivial(script, c_lines):
     return ok and ref
 
 
+def oracle_check(op, ln):
+    """independent re-computation (Python fractions) of what the real code printed for a conversion to a floating
+    target: None = agrees / not applicable, else a message"""
+    w = op.split()
+    if len(w) != 5 or w[1] not in ("val", "vval", "consume") or w[3] not in FLTS or not ln.startswith("R dst=ok out="):
+        return None
+    src, tgt, val = w[2], w[3], w[4]
+    out = ln.split()[2][4:]
+    negzero = False
+    if src in INTS:
+        x = Fraction(int(val))
+    elif val == "nan":
+        x = "nan"
+    else:
+        x = decode(src, val)
+        negzero = bytes.fromhex(val)[-1] & 0x80 != 0       # the sign survives rounding to zero
+    if x == "nan":
+        want = "nan"
+    elif x in ("inf", "-inf"):
+        want = encode(tgt, x)
+    else:
+        r = round_to(tgt, x)
+        if r in ("inf", "-inf"):
+            return "finite %s became infinite (accepted, out=%s)" % (val, out)
+        want = encode(tgt, r, negzero=negzero and r == 0)
+    if out != want:
+        return "python oracle expects out=%s, code stored %s" % (want, out)
+    return None
+
+
 def tally(chk, script, c_lines):
     d = chk.__dict__.setdefault("distribution", {})
+    for k, (op, ln) in enumerate(zip(script, c_lines)):
+        msg = oracle_check(op, ln)
+        if msg:
+            chk.stats["c_ne_s"] += 1
+            chk.report("c_ne_s", [op], {"kind": "c_ne_s", "line": 0, "op": op, "detail": msg}, "oracle-%d" % len(chk.violations))
+        elif msg is None and ln.startswith("R dst=ok out=") and op.split()[3] in FLTS and op.split()[1] in ("val", "vval", "consume"):
+            d["oracle:agreed"] = d.get("oracle:agreed", 0) + 1
     for op, ln in zip(script, c_lines):
         w = op.split()
         if len(w) < 4:
@@ -513,7 +554,7 @@ def tally(chk, script, c_lines):
                    "empty" if ln.startswith("R dst=empty") else "summary" if ln.startswith("R wrong=") else "other")
         k = "%s:%s" % (w[1], verdict)
         d[k] = d.get(k, 0) + 1
-        if w[1] in ("val", "vval", "sweep"):
+        if w[1] in ("val", "vval", "consume", "sweep"):
             k = "src:" + w[2]
             d[k] = d.get(k, 0) + 1
             k = "tgt:" + w[3]
